@@ -393,63 +393,8 @@ crate::verif_common::harness! {
     }
 }
 
-// round trip under an authenticating model cipher (ciphertext = plaintext followed by a 16-byte tag
-// naming the key; decrypt succeeds iff the tag names the deciphering key): a cookie made by a key set
-// decodes, with the same key set, to the same algorithm and session keys.
-fn encrypt_tagging(this: &AesSivCmac512, buffer: &mut [u8], plaintext_length: usize, _associated_data: &[u8]) -> std::io::Result<crate::packet::EncryptResult> {
-    ENC_CALLS.fetch_add(1, Relaxed);
-    buffer.copy_within(0..plaintext_length, 16);
-    buffer[..16].fill(0);
-    buffer[16 + plaintext_length..32 + plaintext_length].fill(this.key_bytes()[0]);
-    Ok(crate::packet::EncryptResult { nonce_length: 16, ciphertext_length: plaintext_length + 16 })
-}
-fn decrypt_tagging(this: &AesSivCmac512, _nonce: &[u8], ciphertext: &[u8], _associated_data: &[u8]) -> Result<Vec<u8>, DecryptError> {
-    DEC_CALLS.fetch_add(1, Relaxed);
-    if ciphertext.len() < 16 || ciphertext[ciphertext.len() - 16] != this.key_bytes()[0] {
-        return Err(DecryptError);
-    }
-    Ok(ciphertext[..ciphertext.len() - 16].to_vec())
-}
-fn cookie_roundtrip(nkeys: usize) {
-        let (p, raw) = any_provider(nkeys);
-        kani::assume(nkeys < 2 || raw[0][0] != raw[1][0]);
-        let ks = &p.current;
-        let (a, b): ([u8; 32], [u8; 32]) = (kani::any(), kani::any());
-        let c = session_cookie(a, b);
-        let out = ks.encode_cookie(&c);
-        let d = ks.decode_cookie(&out).expect("a cookie made by this key set decodes with it");
-        assert!(DEC_CALLS.load(Relaxed) == 1);
-        assert!(d.algorithm == AeadAlgorithm::AeadAesSivCmac256);
-        let j: usize = kani::any();
-        kani::assume(j < 32);
-        assert!(d.s2c.key_bytes().len() == 32 && d.c2s.key_bytes().len() == 32);
-        assert!(d.s2c.key_bytes()[j] == a[j] && d.c2s.key_bytes()[j] == b[j], "same session keys");
-        kani::cover!(ks.id_offset == u32::MAX, "largest id offset reachable");
-        core::mem::forget(c);
-        core::mem::forget(d);
-    }
-crate::verif_common::harness! {
-    #[kani::stub(zeroize::optimization_barrier, barrier_stub)]
-    #[kani::stub(<crate::packet::AesSivCmac512 as crate::packet::Cipher>::decrypt, decrypt_tagging)]
-    #[kani::stub(<crate::packet::AesSivCmac512 as crate::packet::Cipher>::encrypt, encrypt_tagging)]
-    #[kani::stub(<crate::packet::AesSivCmac256 as crate::packet::Cipher>::decrypt, decrypt_model_256)]
-    #[kani::stub(<crate::packet::AesSivCmac256 as crate::packet::Cipher>::encrypt, encrypt_model_256)]
-    #[kani::unwind(66)]
-    fn c26_tb_cookie_roundtrip_1key_under_model_cipher() {
-        cookie_roundtrip(1);
-    }
-}
-crate::verif_common::harness! {
-    #[kani::stub(zeroize::optimization_barrier, barrier_stub)]
-    #[kani::stub(<crate::packet::AesSivCmac512 as crate::packet::Cipher>::decrypt, decrypt_tagging)]
-    #[kani::stub(<crate::packet::AesSivCmac512 as crate::packet::Cipher>::encrypt, encrypt_tagging)]
-    #[kani::stub(<crate::packet::AesSivCmac256 as crate::packet::Cipher>::decrypt, decrypt_model_256)]
-    #[kani::stub(<crate::packet::AesSivCmac256 as crate::packet::Cipher>::encrypt, encrypt_model_256)]
-    #[kani::unwind(66)]
-    fn c26_tb_cookie_roundtrip_2keys_under_model_cipher() {
-        cookie_roundtrip(2);
-    }
-}
+// (A round-trip harness decode(encode(c)) == c under an authenticating model cipher was tried and
+// dropped: CBMC needs > 15 GB for the 130-byte plaintext copies.)
 
 // short cookies (< 22 bytes) are rejected without consulting a key
 crate::verif_common::harness! {
